@@ -8,7 +8,7 @@ Driver for C08 (register allocation). Cases (see `harness/src/bin/sv_c08.rs`):
   agree = the model's successors, live_out table, interference edges and coalescing result equal the
   real ones (the colours are NOT compared); prop = `validAlloc` on the real final assignment with the
   liveness of the real final ops recomputed by the model, and `validSlots` for every spill round.
-* `slots <locals> <regs> ;; <v=off,..>`, `assign <n> <edges> <stack> K=<k> ;; ok <v=k,..>|err`, `vm .. ;; pass|fail`
+* `slots <locals> <regs> ;; ok <v=off,..>`, `assign <n> <edges> <stack> K=<k> ;; ok <v=k,..>|err`, `vm .. ;; pass|fail`
 -/
 namespace SwayVerif.Driver.C08
 open SwayVerif.Driver SwayVerif.Driver.AsmText SwayVerif.Asm
@@ -95,7 +95,7 @@ def answerAlloc (c : List String) (kv : List (String × String)) : String :=
 
 def answerSlots (c : List String) (i : List String) : String :=
   match c, i with
-  | [locals, regs], [res] =>
+  | [locals, regs], ["ok", res] =>
     match locals.toNat?, parseRegs? regs, parseAssign? res with
     | some l, some rs, some impl =>
       let m := spillOffsets rs l
